@@ -153,5 +153,8 @@ package labels
 //@   modifies idx.Blocks[*]
 //@   invariant loop 1: forall k uint64 :: visited1[k] ==> (has(idx.Blocks, k) == (old(has(idx.Blocks, k)) && !outsideB(bounds, unpackc(k & 0x1FFFFF), unpackc((k >> 21) & 0x1FFFFF), unpackc((k >> 42) & 0x1FFFFF))))
 //@   invariant loop 1: forall k uint64 :: !visited1[k] ==> has(idx.Blocks, k) == old(has(idx.Blocks, k))
+//@   invariant loop 1: forall k uint64 :: has(idx.Blocks, k) ==> idx.Blocks[k] == old(idx.Blocks[k])
+//@   ensures forall k uint64 :: has(idx.Blocks, k) ==> idx.Blocks[k] == old(idx.Blocks[k])
+//@   ensures result == nil
 //@   ensures bounds == nil ==> (forall k uint64 :: has(idx.Blocks, k) == old(has(idx.Blocks, k)))
 //@   ensures bounds != nil ==> (forall k uint64 :: has(idx.Blocks, k) == (old(has(idx.Blocks, k)) && !outsideB(bounds, unpackc(k & 0x1FFFFF), unpackc((k >> 21) & 0x1FFFFF), unpackc((k >> 42) & 0x1FFFFF))))
